@@ -34,7 +34,7 @@ func runC01(c *Check) error {
 	c.Bounds = append(c.Bounds,
 		bound("S0 raw input: every byte string of length 0..%d", K0),
 		bound("S1 \"<?php \" / \"<?\" / \"<?=\" / \"<?php\" followed by every byte string of length 0..%d", K1),
-		bound("S2 %d lexical-mode prefixes followed by every byte string of length 0..%d; %d PHP-mode and %d HTML-mode prefixes followed by every byte string of length 0..%d; %d string-offset shapes (\"$a[ / \"$a[- / heredoc $a[-, every byte string of length 0..%d, then ] and the closing quote or label)", len(modePrefixes), K2, len(phpPrefixes), len(rawPrefixes), K1, len(offsetShapes), K2+1),
+		bound("S2 %d lexical-mode prefixes followed by every byte string of length 0..%d; %d PHP-mode and %d HTML-mode prefixes followed by every byte string of length 0..%d; %d string-offset shapes (\"$a[ / \"$a[- / heredoc $a[-, every byte string of length 0..%d (the first shape) / 0..%d, then ] and the closing quote or label)", len(modePrefixes), K2, len(phpPrefixes), len(rawPrefixes), K1, len(offsetShapes), K2+1, K2),
 		"versions "+vers+" (one representative per behaviour class; class equivalence is C09's claim), callback set and nil on every path",
 		bound("termination: %d SSA instructions per path (linear budget: a normal parse of these inputs uses < 10%%)", int(fuel)))
 	c.Assumptions = append(c.Assumptions, stdAssumptions...)
@@ -50,8 +50,12 @@ func runC01(c *Check) error {
 	for _, p := range append(append([]string{}, phpPrefixes...), rawPrefixes...) {
 		needs = append(needs, JobNeed{Job: jobTmpl("H_C01", "S2", tmpl(tC(p), tH('a', 0, K1)), vers, fuel)})
 	}
-	for _, ps := range offsetShapes {
-		needs = append(needs, JobNeed{Job: jobTmpl("H_C01", "S2", tmpl(tC(ps[0]), tH('a', 0, K2+1), tC(ps[1])), vers, fuel)})
+	for i, ps := range offsetShapes {
+		k := K2
+		if i == 0 {
+			k = K2 + 1
+		}
+		needs = append(needs, JobNeed{Job: jobTmpl("H_C01", "S2", tmpl(tC(ps[0]), tH('a', 0, k), tC(ps[1])), vers, fuel)})
 	}
 	c.ExploreNeeds(needs, nil)
 	// the corpus (test snippets + grammar sentences) as written, and with one symbolic
